@@ -111,7 +111,7 @@ def setkey(self, k):
     if len(k) > sz:
         k = self.h(k)
     if len(k) < sz:
-        k += b'\\0'*(sz-len(k))
+        k = k + b'\\0'*(sz-len(k))
     self.K = bytes(k)
 '''
 HMAC_CALL = '''
